@@ -41,6 +41,7 @@ def gen_cases(rng, n):
         opts = dict(nloc=255, all_sections=True) if form == "editor" else {}
         if form == "editor" and i % 7 == 0:
             opts["uprp_prefilled"] = True
+        opts.update([{}, {"interior_ids": 1.0}, {"header_ptr": True}, {"interior_ids": 1.0, "header_ptr": True}, {}][i % 5])
         cases.append((f"gen:{form}:{i}", SC.MapGen(rng, form, **opts).build(), form))
     return cases
 
